@@ -181,6 +181,7 @@ type Engine struct {
 	deadlineHit     bool
 	qwhy            string
 	noIfConv        bool
+	siteKnown       []KnownFinding
 }
 
 type methKey struct {
@@ -589,6 +590,16 @@ func (e *Engine) reportViolation(kind, label string, extra ...*Term) bool {
 }
 
 func (e *Engine) reportViolationAt(kind, label, site string, stack []string, extra ...*Term) bool {
+	if kind != "assert" {
+		for _, k := range e.siteKnown {
+			if k.Site == site && (k.Msg == "" || strings.Contains(label, k.Msg)) {
+				if e.check(extra...) == "sat" {
+					e.knownHits[k.ID]++
+				}
+				return true
+			}
+		}
+	}
 	known := e.activeKnown()
 	neg := append([]*Term(nil), extra...)
 	for _, k := range known {
